@@ -168,14 +168,15 @@ class LazyEvaluatedKernelTensor(LinearOperator):
             # Now we know that x1 and x2 are slices
             # Let's make sure that the slice dimensions perfectly correspond with the number of
             # outputs per input that we have
+            # NB: an explicit stop of 0 is a bound, not a missing bound (`stop or size` would read it as missing)
             row_start, row_end, row_step = (
-                row_index.start or 0,
-                row_index.stop or self.shape[-2],
+                row_index.start if row_index.start is not None else 0,
+                row_index.stop if row_index.stop is not None else self.shape[-2],
                 row_index.step,
             )
             col_start, col_end, col_step = (
-                col_index.start or 0,
-                col_index.stop or self.shape[-1],
+                col_index.start if col_index.start is not None else 0,
+                col_index.stop if col_index.stop is not None else self.shape[-1],
                 col_index.step,
             )
             if row_step is not None or col_step is not None:
